@@ -10,6 +10,7 @@ process that dies or hangs (timeout, address-space limit) marks the op it was ex
 """
 import collections
 import os
+import re
 
 import common
 
@@ -248,7 +249,10 @@ def oracle(op, out):
         if len(outs) != len(rounds):
             raise RuntimeError("unparsable tg output %r" % out)
         for r, (sizes, o) in enumerate(zip(rounds, outs)):
-            kv = dict(t.split("=", 1) for t in o.split())
+            m = re.search(r" RAN id=(\d+) times=(-?\d+)", o)
+            if m:
+                return "`%s` round %d: the task with id %s ran %s times (every task handed to the group must run exactly once, with its own closure)" % (op, r, m.group(1), m.group(2))
+            kv = dict(t.split("=", 1) for t in o.split() if "=" in t)
             k = len(sizes)
             if int(kv["joined"]) != k:
                 return "`%s` round %d: wait returned when %s of %d tasks had completed" % (op, r, kv["joined"], k)
@@ -349,7 +353,7 @@ def gen_tg(rng, idx, info):
             elif fam == 1:
                 toks.append(str(rng.choice(sizes)))
             elif fam == 2:
-                toks.append(str(rng.choice(small + [sizes[-1], sizes[-2]])))
+                toks.append(str(rng.choice(small + sizes[-2:])))
             else:
                 toks.append(str(rng.choice([s for s in sizes if s >= 100] or sizes)))
         if r + 1 < rounds:
@@ -370,6 +374,8 @@ def gen_batches(rng, info, tier):
         Batch("bulk_mtbb", 1, False, [gen_pfor(rng, i, i % 97 == 96) for i in range(np1)] + [gen_tg(rng, i, info) for i in range(nt1)]),
         Batch("bulk_mtbb", 4, True, [gen_pfor(rng, i, i % 89 == 88) for i in range(np4)] + [gen_tg(rng, i, info) for i in range(nt4)]),
         Batch("bulk_mtbb", 2, True, [gen_pfor(rng, i, False) for i in range(np4 // 2)] + [gen_tg(rng, i, info) for i in range(nt4 // 2)]),
+        # one worker AND yielding tasks: a task is suspended inside run() while the group goes on adding tasks
+        Batch("bulk_mtbb", 1, True, [gen_tg(rng, i, info) for i in range(nt4 // 2)] + [gen_pfor(rng, i, False) for i in range(np4 // 4)]),
     ]
     return bs
 
